@@ -89,6 +89,7 @@ func (s *session) PairVerifyHandler() PairVerifyHandler {
 }
 
 func (s *session) SetCryptographer(c crypto.Cryptographer) {
+	verifYield("setcrypt", s.connection, nil)
 	// Temporarily set the cryptographer as the nextCryptographer
 	// The nextCryptographer is used the next time Decrypter() is called.
 	// Otherwise the Encrypter() encrypts differently than the previous Decrypter()
